@@ -97,7 +97,7 @@ impl Case {
         } else if self.kind.is_session() {
             s.push_str(&format!("    .window(session: {}ms)\n", self.size));
         } else {
-            s.push_str(&format!("    .window({}ms)\n", self.size + 1));
+            s.push_str(&format!("    .window({}ms)\n", self.size));
         }
         s.push_str(FP_TAIL);
         s
@@ -523,8 +523,8 @@ fn main() {
     let threads = ncpu();
     let exh_len = args.pick(5usize, 6usize);
     let exh_wm_len = args.pick(4usize, 6usize);
-    let n_direct = args.pick(40_000usize, 2_000_000usize);
-    let n_engine = args.pick(2_400usize, 100_000usize);
+    let n_direct = args.pick(60_000usize, 2_000_000usize);
+    let n_engine = args.pick(4_000usize, 100_000usize);
     let parts = parallel(threads, args.seed ^ 0xC12, move |ti, mut rng| {
         let mut out = Partial::default();
         let rt = rt();
